@@ -299,24 +299,30 @@ func (v *PacketDslFormattor) VisitInerObjectField(ctx *gen.InerObjectFieldContex
 // VisitMetaDataDefinition overrides the default implementation for metadata definitions.
 func (v *PacketDslFormattor) VisitMetaDataDefinition(ctx *gen.MetaDataDefinitionContext) interface{} {
 	var formattedDsl strings.Builder
+	formattedDsl.WriteString(v.getHiddenLeft(ctx.GetStart()))
 	metaName := ctx.IDENTIFIER().GetText()
 	formattedDsl.WriteString(fmt.Sprintf("MetaData %s {\n", metaName))
 
 	for _, decl := range ctx.GetChildren() {
+		var result string
 		switch c := decl.(type) {
 		case *gen.RefMetaDataDeclarationContext:
-			result := v.VisitRefMetaDataDeclaration(c).(string)
-			formattedDsl.WriteString(AddIndent4ln(result))
+			result = v.getHiddenLeft(c.GetStart())
+			result += v.VisitRefMetaDataDeclaration(c).(string)
+			result += v.getHiddenRightAtSameLine(c.GetStop())
 		case *gen.MetaDataDeclarationContext:
-			result := v.VisitMetaDataDeclaration(c).(string)
-			formattedDsl.WriteString(AddIndent4ln(result))
+			result = v.getHiddenLeft(c.GetStart())
+			result += v.VisitMetaDataDeclaration(c).(string)
+			result += v.getHiddenRightAtSameLine(c.GetStop())
 		default:
 			continue
 		}
+		formattedDsl.WriteString(AddIndent4ln(result))
 	}
 
 	formattedDsl.WriteString(v.getHiddenBeforeClose(ctx.GetStop()))
 	formattedDsl.WriteString("}")
+	formattedDsl.WriteString(v.getHiddenRightAtSameLine(ctx.GetStop()))
 	return formattedDsl.String()
 }
 
